@@ -30,6 +30,8 @@
 //   k=<k> outcome=<clean|swallowed|terminate|signal:<n>|foreign|double|notreached|exit:<n>|asan> via=<status|oom|bad_alloc|
 //     xalan-exception|other-exception|none|-> outstanding=<n|-> after=<ok|bad|-> size=<bytes|-> status=<rc|->
 //     phase=<call|destroy|after|done> end=<clean|terminate|signal:<n>|...> hsig=<sig;sig;...|-> fsig=<sig|-> sig=<sig|->
+//   persist mode: refused=<number of further refusals>, lsig/ldtor = signature / destructor path of the LAST
+//   refused allocation (the one that ended the process when end=terminate).
 //   `outcome` is foreign/double as soon as one such free was seen (end= tells how the child ended);
 //   `swallowed` = the failure was injected but every API call reported success (out=same|diff compares the
 //   transformation output with that of the run without injection).
@@ -262,7 +264,7 @@ public:
 
     CountingMM() :
         m_count(0), m_bytes(0), m_foreign(0), m_double(0), m_nullFree(0), m_handlerAllocs(0),
-        m_mode(INJ_NONE), m_failAt(0), m_armed(false), m_fired(false), m_failing(false),
+        m_mode(INJ_NONE), m_failAt(0), m_refused(0), m_armed(false), m_fired(false), m_failing(false),
         m_throwKind(THROW_OOM), m_release(false), m_trace(false), m_log(0)
     {}
 
@@ -319,6 +321,16 @@ public:
             }
             else if (m_failing) {
                 fail = true;
+                // persist mode: remember the most recent refused allocation (the one that kills, if any)
+                std::vector<std::string> names;
+                stackNames(ret, names, DTORWINDOW);
+                std::string dt = "-";
+                for (std::string::size_type i = 0; i < names.size(); ++i)
+                    if (names[i].find("::~") != std::string::npos) { dt = joinNames(names, i + 1); break; }
+                ++m_refused;
+                std::ostringstream os;
+                os << "lsig=" << joinNames(names, SIGFRAMES) << "\nldtor=" << dt << "\nrefused=" << m_refused;
+                report(os.str());
             }
             if (fail) {
                 if (m_throwKind == THROW_BAD_ALLOC) throw std::bad_alloc();
@@ -368,6 +380,7 @@ public:
     unsigned long   m_foreign, m_double, m_nullFree, m_handlerAllocs;
     InjectMode      m_mode;
     unsigned long   m_failAt;
+    unsigned long   m_refused;              // persist mode: refusals after the first
     bool            m_armed, m_fired, m_failing;
     ThrowKind       m_throwKind;
     bool            m_release;
@@ -716,10 +729,10 @@ int main(int argc, char** argv)
         else if (end == "clean" && !fired) outcome = "notreached";
         else if (end == "clean" && get(kv, "via") == "none") outcome = "swallowed";   // failure injected, API reported success
         std::string phase = get(kv, "phase");
-        std::printf("k=%lu outcome=%s via=%s outstanding=%s after=%s size=%s status=%s phase=%s end=%s ctx=%s N=%s out=%s dtor=%s hsig=%s fsig=%s sig=%s\n",
+        std::printf("k=%lu outcome=%s via=%s outstanding=%s after=%s size=%s status=%s phase=%s end=%s ctx=%s N=%s out=%s refused=%s dtor=%s ldtor=%s lsig=%s hsig=%s fsig=%s sig=%s\n",
                     *ki, outcome.c_str(), get(kv, "via").c_str(), get(kv, "outstanding").c_str(), get(kv, "after").c_str(),
                     get(kv, "size").c_str(), get(kv, "status").c_str(), phase.c_str(), end.c_str(), get(kv, "ctx").c_str(),
-                    get(kv, "N").c_str(), get(kv, "out").c_str(), get(kv, "dtor").c_str(), get(kv, "hsig").c_str(), get(kv, "fsig").c_str(), get(kv, "sig").c_str());
+                    get(kv, "N").c_str(), get(kv, "out").c_str(), get(kv, "refused", "0").c_str(), get(kv, "dtor").c_str(), get(kv, "ldtor").c_str(), get(kv, "lsig").c_str(), get(kv, "hsig").c_str(), get(kv, "fsig").c_str(), get(kv, "sig").c_str());
     }
     std::fflush(stdout);
     _exit(0);
